@@ -130,6 +130,11 @@ func runCase(c Case, k int) CaseResult {
 	}
 	fn := reflect.ValueOf(c.Fn)
 	ft := fn.Type()
+	if fn.Kind() == reflect.Func && fn.IsNil() {
+		res.Fails = append(res.Fails, Fail{Kind: "nil-func-variable", Detail: "the goverter:variables function variable was not assigned by the generated init()"})
+		res.NFail++
+		return res
+	}
 	modes := map[string]bool{}
 	for _, m := range strings.Split(c.Mode, ",") {
 		modes[m] = true
